@@ -81,13 +81,35 @@ func verifMapsEqual(a, b map[string]string) bool {
 	return true
 }
 
+// verifDigitsThenColon: s = digit* ':' ...
+func verifDigitsThenColon(s string) bool {
+	for i := 0; i < len(s); i++ {
+		if s[i] == ':' {
+			return true
+		}
+		if s[i] < '0' || s[i] > '9' {
+			return false
+		}
+	}
+	return false
+}
+
+func verifHasByte(s string, c byte) bool {
+	for i := 0; i < len(s); i++ {
+		if s[i] == c {
+			return true
+		}
+	}
+	return false
+}
+
 func VerifC38RoundTrip() {
 	maxLen := vParam("maxlen", 6)
 	kind := Kind_Synchronization
 	if vChoose(2) == 1 {
 		kind = Kind_Forwarding
 	}
-	first := vChoose(2) == 1
+	first := vBool()
 	raw := verifC38Raw(maxLen)
 	vLabel("")
 
@@ -125,18 +147,31 @@ func VerifC38RoundTrip() {
 	vAssert(u.EnsureValid() == nil, "every URL produced by parsing is valid")
 
 	text := u.Format("")
-	vNote("URL text produced by parsing does not re-parse to the same URL (Parse(Format(Parse(s))) != Parse(s))")
+	// Describe the shape of the parsed URL so that a counterexample can be
+	// attributed to a cause (the conditions are on the first parse only); the
+	// class is part of the assertion labels.
+	class := ""
+	switch {
+	case u.Protocol == Protocol_SSH && u.Port == 0 && verifDigitsThenColon(u.Path):
+		class = "[ssh zero port] "
+		vNote("SSH URL with explicit port 0 and a path that begins with digits and ':' (Format drops the zero port, the path's digits are re-parsed as the port)")
+	case u.Protocol == Protocol_Docker && u.User == "" && verifHasByte(u.Host, '@'):
+		class = "[docker empty user] "
+		vNote("Docker URL with empty user name ('docker://@...') whose container name contains '@' (Format drops the empty user, the container is re-split at '@')")
+	default:
+		vNote("URL text produced by parsing does not re-parse to the same URL")
+	}
 	u2, err2 := Parse(text, kind, first)
-	vAssert(err2 == nil, "formatted URL parses again")
+	vAssert(err2 == nil, class+"formatted URL parses again")
 	if err2 != nil || u2 == nil {
 		return
 	}
-	vAssert(u2.Kind == u.Kind, "round trip: kind")
-	vAssert(u2.Protocol == u.Protocol, "round trip: protocol")
-	vAssert(u2.User == u.User, "round trip: user")
-	vAssert(u2.Host == u.Host, "round trip: host")
-	vAssert(u2.Port == u.Port, "round trip: port")
-	vAssert(u2.Path == u.Path, "round trip: path")
-	vAssert(verifMapsEqual(u.Environment, u2.Environment), "round trip: environment")
-	vAssert(verifMapsEqual(u.Parameters, u2.Parameters), "round trip: parameters")
+	vAssert(u2.Kind == u.Kind, class+"round trip: kind")
+	vAssert(u2.Protocol == u.Protocol, class+"round trip: protocol")
+	vAssert(u2.User == u.User, class+"round trip: user")
+	vAssert(u2.Host == u.Host, class+"round trip: host")
+	vAssert(u2.Port == u.Port, class+"round trip: port")
+	vAssert(u2.Path == u.Path, class+"round trip: path")
+	vAssert(verifMapsEqual(u.Environment, u2.Environment), class+"round trip: environment")
+	vAssert(verifMapsEqual(u.Parameters, u2.Parameters), class+"round trip: parameters")
 }
